@@ -262,6 +262,11 @@ def run(args):
 
 def report():
     rs = [json.loads(l) for l in open(os.path.join(OUT, "results.jsonl"))]
+    # a mutant is identified by (file, line, operator, mutated text); later runs replace earlier ones
+    uniq = {}
+    for r in rs:
+        uniq[(r["file"], r["line"], r["op"], r["after"])] = r
+    rs = list(uniq.values())
     by = {}
     for r in rs:
         by.setdefault(r["file"], []).append(r)
